@@ -11,6 +11,7 @@ Verdict protocol:
 from __future__ import annotations
 
 import fcntl
+import json as json
 import json
 import os
 import random
